@@ -347,3 +347,16 @@ package httpserver
 //@ unit peer_input_sweep props=C19 files=replacer.go,mitm.go,path.go nilchecks=on nonnil_params=on exclude=`rawHelloInfo\)\.|parseRawClientHello$|clientHelloConn\)\.Read$|replacer\)\.Replace$|assertPresenceAndOrdering$|hasGreaseCiphers$|Path\)\.Matches$` filter=`.`
 //@ // everything else in the files that handle peer-controlled bytes (placeholders, User-Agent heuristics, path helpers): safety sweep
 //@ use @verif/specs/stdlib.spec:stdlib
+//@ use @verif/specs/stdlib.spec:nethttp_api
+//@ // representation invariant of a replacer built by NewReplacer for a live request; the key is a placeholder `{...}`
+//@ // (Replace establishes that at its call site: unit replacer)
+//@ func (*replacer).getSubstitution
+//@   requires r != nil && r.request != nil && r.request.URL != nil && r.request.Header != nil && len(key) >= 2 && key[len(key)-1] == '}'
+//@   requires (r.responseRecorder != nil ==> r.responseRecorder.ResponseWriterWrapper != nil) && r.requestBody != nil
+//@ // package-level strings.Replacer built by its initialiser
+//@ invariant requestReplacer != nil
+//@ func (*replacer).getPeerCert
+//@   requires r != nil && r.request != nil
+//@ func (*replacer).Set
+//@   requires r != nil && r.customReplacements != nil
+//@   modifies MV:map[string]string, MD:map[string]string
